@@ -683,6 +683,9 @@ func Run(c *fw.Ctx) {
 		}
 		ioFaults(c, dir, iodocs)
 	}
+	if c.Only == "" || strings.HasPrefix(c.Only, "hdoc:") {
+		c.Parallel(c.N(60, 600), func(i int) { runHeadingDoc(c, dir, i) })
+	}
 	pool := fw.NewPool(c, "c10", 16, 60*time.Second, 0)
 	defer pool.Close()
 	n := c.N(120, 6000)
